@@ -48,4 +48,20 @@ Definition check (i : inp) (o : bytes) : bool :=
   | IDurFmt a => C18_check_durationformat a o
   end.
 
-Definition mm := mismatches model oeqb check.
+(* a case = one compiled expression evaluated on a sequence of inputs (singleton for the ordinary cases):
+   every output of the sequence must agree with the model / satisfy the boolean form *)
+Definition c1 (x : inp * bytes) : list inp * list bytes := ([fst x], [snd x]).
+Definition cs (l : list (inp * bytes)) : list inp * list bytes := (map fst l, map snd l).
+
+Fixpoint all2 {A B} (f : A -> B -> bool) (a : list A) (b : list B) : bool :=
+  match a, b with
+  | [], [] => true
+  | x :: a', y :: b' => f x y && all2 f a' b'
+  | _, _ => false
+  end.
+
+Definition model_seq (l : list inp) : list bytes := map model l.
+Definition oeqb_seq (a b : list bytes) : bool := all2 oeqb a b.
+Definition check_seq (l : list inp) (o : list bytes) : bool := all2 check l o.
+
+Definition mm := mismatches model_seq oeqb_seq check_seq.
